@@ -329,13 +329,27 @@ impl WorldC {
     }
 
     pub fn export(&mut self, ctx: &mut Ctx, s: usize) -> Result<(Vec<u8>, Model), Violation> {
-        let blob = bincode::serialize(&self.servers[s].server.get_private_key()).map_err(|e| Violation::new("c.setup", "export", e.to_string()))?;
-        let _ = ctx;
+        // bincode, or (one export in four) JSON: the key state is a plain serde value. The first byte of the
+        // blob is the harness's own framing (0 = bincode, 1 = JSON) and is stripped again on import.
+        let mut blob;
+        if ctx.ch.chance(1, 4) {
+            ctx.stats.probe("key_state_exported_as_json");
+            blob = vec![1u8];
+            blob.extend(serde_json::to_vec(&self.servers[s].server.get_private_key()).map_err(|e| Violation::new("c.setup", "export_json", e.to_string()))?);
+        } else {
+            blob = vec![0u8];
+            blob.extend(bincode::serialize(&self.servers[s].server.get_private_key()).map_err(|e| Violation::new("c.setup", "export", e.to_string()))?);
+        }
         Ok((blob, self.servers[s].model.clone()))
     }
 
     pub fn import(&mut self, ctx: &mut Ctx, s: usize, blob: &[u8], model: &Model, why: &str) -> Result<(), Violation> {
-        let st: pp::ServerKeyState = bincode::deserialize(blob).map_err(|e| Violation::new("c14.import_differs", "import_failed", format!("an exported key state does not import: {}", e)))?;
+        let (fmt, blob) = blob.split_first().ok_or_else(|| Violation::new("c.setup", "import", "empty key-state blob"))?;
+        let st: pp::ServerKeyState = if *fmt == 1 {
+            serde_json::from_slice(blob).map_err(|e| Violation::new("c14.import_differs", "import_failed", format!("a key state exported as JSON does not import: {}", e)))?
+        } else {
+            bincode::deserialize(blob).map_err(|e| Violation::new("c14.import_differs", "import_failed", format!("an exported key state does not import: {}", e)))?
+        };
         self.servers[s].server.set_private_key(st);
         // the importer becomes a copy of the exporter AT EXPORT TIME (the answer table is kept per key)
         let mut m = model.clone();
